@@ -19,10 +19,10 @@ import (
 
 func init() {
 	register(&property{
-		ID: "C14",
+		ID:          "C14",
 		Explanation: "Static decision of structural conditions behind the protocol matchers' verdicts: (R1) filter liveness: every configured (JSON) field of every ConnMatcher is read by code reachable from its Match, or by Provision/Validate; (R2) the wire constants and byte strings the matchers compare against equal an independent table written from the protocol specifications (/verif/specs/wire_constants.json), including the version/record-type byte gates; (R3) provision completeness: every unexported field a matcher reads at match time is assigned during provisioning; (R4) address-family hygiene: a netip.Addr tested with Prefix.Contains comes from a textual parse, from AddrFrom4, or has been Unmap()ped (an IPv4-mapped IPv6 address never matches an IPv4 prefix); (R5) the DNS matcher's allow/deny decision, path-evaluated over rule presence, per-question rule hits and the two flags, equals the documented table.",
-		NotDecided: "The verdict function of each matcher against a reference predicate over all messages and filter configurations (value-level: field validation arithmetic, regexps, time windows).",
-		Run:        runC14,
+		NotDecided:  "The verdict function of each matcher against a reference predicate over all messages and filter configurations (value-level: field validation arithmetic, regexps, time windows).",
+		Run:         runC14,
 	})
 }
 
@@ -151,14 +151,14 @@ func fieldStoredAnywhereAtomically(c *Ctx, k string) bool {
 }
 
 type wireEntry struct {
-	Pkg   string `json:"pkg"`
-	Name  string `json:"name"`
-	Func  string `json:"func"`
-	Kind  string `json:"kind"`
-	Hex   string `json:"hex"`
-	Index int64  `json:"index"`
+	Pkg   string      `json:"pkg"`
+	Name  string      `json:"name"`
+	Func  string      `json:"func"`
+	Kind  string      `json:"kind"`
+	Hex   string      `json:"hex"`
+	Index int64       `json:"index"`
 	Value interface{} `json:"value"`
-	Why   string `json:"why"`
+	Why   string      `json:"why"`
 }
 
 func c14R2(c *Ctx, r *Report, rule string) {
